@@ -9,8 +9,12 @@ from . import types as Ty
 
 
 class Loop:
-    def __init__(self, inv, pos=None, seen=None, step=(), ghosts=None):
+    def __init__(self, inv, pos=None, seen=None, step=(), ghosts=None, cuts=None):
         self.inv = list(inv)
+        # cuts: {index of a top-level statement of the loop body: [facts]} -
+        # intermediate assertions proved (and then assumed) right before that
+        # statement (stepping stones for the solver; they add no assumption)
+        self.cuts = dict(cuts or {})
         # ghost loop variables: name -> (init expression, per-iteration update
         # expression; prev(e) refers to the start of the iteration)
         self.ghosts = dict(ghosts or {})
